@@ -131,7 +131,14 @@ Definition matching_hosts (t : table) (host : str) (tls : bool) : list str :=
   sort_hosts_rhp
     (filter (fun k => gobwas_match (normalize_host k tls) (normalize_host host tls)) (map fst t)).
 
+(* since /repo 3f5e3c8 the request host is lower-cased here too (normalizeHost) *)
 Definition matching_host_noglob (t : table) (host : str) (tls : bool) : list str :=
+  sort_hosts_rhp
+    (map lower (filter (fun k => beq (normalize_host k tls) (normalize_host host tls)) (map fst t))).
+
+(* the code before 3f5e3c8 (normalizeHostNoLower: the host keeps its letter case);
+   kept only for the refutation theorem [noglob_upper_host_refuted] *)
+Definition matching_host_noglob_unrepaired (t : table) (host : str) (tls : bool) : list str :=
   sort_hosts_rhp
     (map lower (filter (fun k => beq (normalize_host k tls) (strip_port host tls)) (map fst t))).
 
@@ -154,6 +161,11 @@ Definition lookup (t : table) (host : str) (tls : bool) (uri : str) (m : matcher
            (globoff : bool) : option cand :=
   let hosts := if globoff then matching_host_noglob t host tls else matching_hosts t host tls in
   first_some (fun h => lookup1 t h uri m) (hosts ++ [[]]).
+
+(* Lookup before 3f5e3c8, glob matching disabled (refutation theorem only) *)
+Definition lookup_noglob_unrepaired (t : table) (host : str) (tls : bool) (uri : str) (m : matcher)
+  : option cand :=
+  first_some (fun h => lookup1 t h uri m) (matching_host_noglob_unrepaired t host tls ++ [[]]).
 
 (* =================== specification side =================== *)
 Definition all_routes (t : table) : list cand :=
@@ -230,7 +242,9 @@ Definition keys (t : table) : list str := map fst t.
 Definition ends_with_colon (s : str) : bool :=
   match rev s with c :: _ => c =? ch_colon | [] => false end.
 
-(* 1: glob matching disabled and the Host header has an upper-case letter *)
+(* 1 (repaired in /repo by 3f5e3c8; no longer part of [region], kept for the refutation
+      theorem about the unrepaired code): glob matching disabled and the Host header has
+      an upper-case letter *)
 Definition F_C03_upper_host_noglob (globoff : bool) (host : str) : bool :=
   globoff && has_upper host.
 (* 2: iprefix matcher and some route path has an upper-case letter (the routes are
@@ -260,8 +274,7 @@ Definition F_C03_gobwas_overlap (globoff tls : bool) (m : matcher) (t : table) (
      end.
 
 Definition region (t : table) globoff tls m host uri : option N :=
-  if F_C03_upper_host_noglob globoff host then Some 1
-  else if F_C03_colon_key t then Some 5
+  if F_C03_colon_key t then Some 5
   else if F_C03_gobwas_overlap globoff tls m t host uri then Some 6
   else if F_C03_iprefix_case m t then Some 2
   else if F_C03_empty_star globoff tls t host then Some 4
